@@ -41,11 +41,19 @@ META = dict(
          "Forward-free part of the table (parseLR_frame: there parseLR = parse for every environment); the And's "
          "pre-parse does not move from where the Forward's ended; no growth of E in progress at that location; the tail "
          "strictly advances (dischargeable: tailOf_strict + parse_lit1_strict when it starts with a one-character "
-         "operator literal); with actions: trial/action agreement. PARTIAL (named _partial): the last step from iterRef "
-         "over the model parser to the model's parse of a node table And[b, ZeroOrMore(And[t...])] is not proved "
-         "(wrappers/pre-parse of those nodes, manyLoop's budget), nor are rules with actions/names on E/m/sq or with "
-         "Forwards inside base/tail (parenthesised recursion) covered - equality of the real LR parse with the real "
-         "parse of the derived repetition grammar stays decided by the real-code oracle on generated direct "
+         "operator literal); with actions: trial/action agreement. And both halves together, "
+         "parseLR_direct_eq_parse_iterative_partial: parseLR on E = the model's parse of the iterative grammar "
+         "I=And[b,Z], Z=ZeroOrMore(R), R=And[t...] in the same table (parse_I_step, manyLoop_eq_iterLoop: _MultipleMatch's "
+         "loop is iterLoop), same fuel, tokens AND end location AND failures. PARTIAL (hence the names _partial): that "
+         "last theorem assumes that the pre-parse of Z and R does not move and that b / the first tail element ignore "
+         "their callPreParse flag (no whitespace/ignorables before the operator at the positions visited), that matches "
+         "end inside the input, and that the base's failure is a ParseException at or after the location. The "
+         "whitespace hypotheses cannot just be dropped: exG2_end_differs (Lean, replayed on the real code) shows LR "
+         "grammar and iterative grammar END at different offsets on '1 ' (ZeroOrMore returns the pre-parsed location when "
+         "it matches nothing) while the tokens agree - a whitespace-tolerant theorem (tokens/success only) is NOT proved; "
+         "nor are rules with actions/names on E/m/sq or with Forwards inside base/tail (parenthesised recursion) "
+         "covered. Equality of the real LR parse with the real parse of the derived repetition grammar (tokens) stays "
+         "decided by the real-code oracle on generated direct "
          "left-recursive rule sets; indirect / mutual left recursion is the registered finding indirect_left_recursion "
          "(the real code returns the base case only) and is kept out of the generators.",
     note="Trusted: Lean kernel; axioms propext/Classical.choice/Quot.sound; the seed-growing model (in-growth memo entries as "
@@ -62,7 +70,9 @@ THEOREMS = ["PP.Parse.growLoop_peek_spec", "PP.Parse.growLoop_round_grows", "PP.
             "PP.Parse.lr_direct_eq_iterative_budget", "PP.Parse.iterLoop_budget", "PP.Parse.iterLoop_no_hang",
             "PP.Parse.iterRef_plain", "PP.Parse.growLoop_lrBody_loop",
             "PP.Parse.parseLR_frame", "PP.Parse.parseLR_body_eq_lrBody", "PP.Parse.parseLR_direct_eq_iterative_partial",
-            "PP.Parse.growLoop_congr", "PP.Parse.growLoop_enhFix", "PP.Parse.tailOf_strict", "PP.Parse.parse_lit1_strict"]
+            "PP.Parse.growLoop_congr", "PP.Parse.growLoop_enhFix", "PP.Parse.tailOf_strict", "PP.Parse.parse_lit1_strict",
+            "PP.Parse.parseLR_direct_eq_parse_iterative_partial", "PP.Parse.parse_I_step", "PP.Parse.manyLoop_eq_iterLoop",
+            "PP.Parse.exG2_end_differs"]
 
 CAPS = [None, 1, 2, 4]
 
